@@ -69,6 +69,7 @@ pub fn read_directories(
         root_dir_offset_length,
         leaf_dir_offset,
         &filter_range,
+        0,
     )?;
 
     Ok(tiles)
@@ -127,6 +128,7 @@ pub async fn read_directories_async(
         root_dir_offset_length,
         leaf_dir_offset,
         &filter_range,
+        0,
     )
     .await?;
 
@@ -136,6 +138,11 @@ pub async fn read_directories_async(
 /// Get (inclusive) end of range bounds.
 ///
 /// Will return [`None`] if range has no end bound.
+/// Maximum nesting depth of leaf directories below the root directory (the root has depth 0).
+///
+/// This is the same limit the reference implementations use while looking up a tile.
+const MAX_DIR_DEPTH: u8 = 3;
+
 fn range_end_inc(range: &impl RangeBounds<u64>) -> Option<u64> {
     match range.end_bound() {
         std::ops::Bound::Included(val) => Some(*val),
@@ -157,7 +164,15 @@ async fn fn_name(
     (dir_offset, dir_length): (u64, u64),
     leaf_dir_offset: u64,
     filter_range: &FilterRangeTraits,
+    depth: u8,
 ) -> Result<()> {
+    if depth > MAX_DIR_DEPTH {
+        return Err(std::io::Error::new(
+            std::io::ErrorKind::InvalidData,
+            "Leaf directories are nested too deeply (or form a cycle).",
+        ));
+    }
+
     seek_start([reader], [dir_offset])?;
     let directory = read_directory([reader], [dir_length], [compression])?;
     let range_end = range_end_inc(filter_range).unwrap_or(u64::MAX);
@@ -169,13 +184,21 @@ async fn fn_name(
                 continue;
             }
 
+            let Some(offset) = leaf_dir_offset.checked_add(entry.offset) else {
+                return Err(std::io::Error::new(
+                    std::io::ErrorKind::InvalidData,
+                    "Offset of a leaf directory overflows.",
+                ));
+            };
+
             add_await([fn_name(
                 reader,
                 tiles,
                 compression,
-                (leaf_dir_offset + entry.offset, u64::from(entry.length)),
+                (offset, u64::from(entry.length)),
                 leaf_dir_offset,
                 filter_range,
+                depth + 1,
             )])?;
             continue;
         }
